@@ -5,6 +5,8 @@ import (
 	"math/rand"
 	"strings"
 	"sync"
+
+	"github.com/jrhy/mast"
 )
 
 // replayExec answers with observations recorded during the concurrent run, so that the
@@ -130,6 +132,12 @@ func famConc(f *FamCtx) {
 				f.Report.Findings = append(f.Report.Findings, Finding{Family: "conc", Property: "C11", Case: Case{cfg, prefix}, Outcome: Outcome{Kind: "oracle", Line: l, Impl: o, Viol: v}, FailingInput: true})
 			}
 		}
+		// every second case: all goroutines load their trees through ONE *RemoteConfig that no
+		// LoadMast has seen yet (its function fields are as the session has them: mostly nil)
+		var sharedCfg *mast.RemoteConfig
+		if i%2 == 1 {
+			sharedCfg = base.remoteConfig()
+		}
 		obs := make([][]string, g)
 		viols := make([]string, g)
 		var wg sync.WaitGroup
@@ -140,6 +148,7 @@ func famConc(f *FamCtx) {
 				s := NewSession(cfg)
 				s.Store, s.Cache = base.Store, base.Cache
 				s.sharedStore = true
+				s.sharedCfg = sharedCfg
 				for k, v := range base.Roots { // the shared roots (read-only)
 					s.Roots[k] = v
 					s.ROracle[k] = base.ROracle[k]
